@@ -329,6 +329,13 @@ func (w *World) nameOfAddr(bech string) string {
 	if n, ok := w.acctName[bech]; ok {
 		return n
 	}
+	// the abstraction of an address string is the ACCOUNT it denotes (all-upper-case bech32 is the
+	// same account; mixed case does not decode)
+	if a, err := sdk.AccAddressFromBech32(bech); err == nil {
+		if n, ok := w.acctName[a.String()]; ok {
+			return n
+		}
+	}
 	return "?" + bech
 }
 
